@@ -196,4 +196,34 @@ def rule_write_rows_agrees_with_write_row(ctx):
     protocol.write_rows_agreement_table(ctx, "O12.6")
 
 
-RULES = [rule_dialect, rule_accepted_configurations, rule_newline, rule_quoting_modes, rule_write_rows_agrees_with_write_row, rule_module_state]
+def rule_field_size_limit(ctx):
+    """O12.7: "every table of strings": the csv READER refuses fields longer than csv.field_size_limit() (131072 characters
+    unless raised) while the writer writes them - the package must raise the limit before it reads (frozen csv fact)."""
+    import ast
+
+    from ..model import dotted, walk_own
+
+    model = ctx.model
+    ctx.res.minimum("O12.7", 1)
+    raised = []
+    for func in model.functions.values():
+        if func.module.name.startswith("cutplace.") and func.module.name != "cutplace.gui":
+            for node in walk_own(func.node):
+                if isinstance(node, ast.Call) and (dotted(node.func) or "").endswith("field_size_limit") and node.args:
+                    raised.append(func.qualname)
+    for module in model.modules.values():
+        if module.name.startswith("cutplace"):
+            for node in module.tree.body:
+                for call in ast.walk(node) if not isinstance(node, (ast.FunctionDef, ast.ClassDef)) else []:
+                    if isinstance(call, ast.Call) and (dotted(call.func) or "").endswith("field_size_limit") and call.args:
+                        raised.append(module.name)
+    what = "the csv field size limit is raised before delimited data are read"
+    if raised:
+        ctx.res.ok("O12.7", what + " (%s)" % ", ".join(sorted(set(raised))), True)
+    else:
+        ctx.res.fail("O12.7", what, "rowio.delimited_rows:O12.7:field-size-limit", where_of(model, "cutplace.rowio.delimited_rows"),
+                     "nothing in the package calls csv.field_size_limit(n): a cell of more than 131072 characters is written but cannot "
+                     "be read back (csv.Error: field larger than field limit)")
+
+
+RULES = [rule_dialect, rule_accepted_configurations, rule_newline, rule_quoting_modes, rule_write_rows_agrees_with_write_row, rule_field_size_limit, rule_module_state]
